@@ -46,6 +46,14 @@ func (x *Exec) ptrTerm(v Val) string {
 		unsup("address of local cell escapes (%s)", d.Cell.a.Comment)
 	}
 	if len(d.Path) > 0 {
+		if x.contract != nil && x.contract.AbstractPtrs {
+			// abstraction: the escaping interior pointer becomes an unknown non-nil
+			// pointer (loads through it yield unconstrained values)
+			p := x.S.Const("absptr", "Ptr")
+			x.S.Axiom("absptr_"+p, []string{p}, "(and (> (p_reg "+p+") 0) (>= (p_idx "+p+") 0))")
+			x.note("interior pointer escapes: abstracted to an unknown non-nil pointer (directive abstractptrs)")
+			return p
+		}
 		unsup("pointer into aggregate escapes")
 	}
 	if d.Idx == wholeArray {
